@@ -297,6 +297,7 @@ package components
 //@   trusted recursion over the key list with nonlinear index arithmetic (head x tail expansion): not brought under proof
 //@   modifies fresh
 //@   assumes only-input-keys: forall k string :: k in res ==> k in inIPs
+//@   assumes rows-hold-only-valid-items: (forall k string, j int :: k in inIPs && 0 <= j && j < len(inIPs[k]) ==> validIP(inIPs[k][j])) ==> (forall k string, j int :: k in res && 0 <= j && j < len(res[k]) ==> validIP(res[k][j]))
 //@   bounded cartesian-product-exactly-once[C19]: combine_file_test.go TestGovcBoundedCombineFile :: at most 3 ports, at most 3 distinct files per port, every order of the key list
 
 //@ extern (*sync.WaitGroup).Add(wg, delta)
@@ -344,3 +345,45 @@ package components
 //@   loop 2 invariant stable: p == old(p) && p.inParamPorts == old(p.inParamPorts) && p.outParamPorts == old(p.outParamPorts) && combOutsOK(p) && inParams != nil && (forall k string :: k in inParams ==> k in p.outParamPorts)
 //@   loop 2 invariant drained: forall k string :: k in p.inParamPorts ==> k in inParams && chanRecvN(p.inParamPorts[k].Chan) == chanTotal(p.inParamPorts[k].Chan)
 //@   loop 3 invariant outs: p == old(p) && p.outParamPorts == old(p.outParamPorts) && combOutsOK(p) && (forall k string :: k in outIPs ==> k in p.outParamPorts)
+
+// FileCombinator.Run: as ParamCombinator.Run, for file ports.
+//@ func (*FileCombinator).Out(p, pName) (res)
+//@   props C19
+//@   ensures def: pName in p.outPorts && res == p.outPorts[pName]
+
+//@ define fcombOutsOK(p *FileCombinator) bool = p.outPorts != nil && (forall k string :: k in p.outPorts ==> p.outPorts[k] != nil && wfOutPort(p.outPorts[k]))
+//@ func (*FileCombinator).Run$1()
+//@   props C19
+//@   requires wf: fcombOutsOK(p) && pName in p.outPorts && (forall j int :: 0 <= j && j < len(ips) ==> validIP(ips[j]))
+//@   modifies *
+//@   ensures sends-its-row-in-order-on-the-port-of-its-name[C19]: outN[old(p.outPorts[pName])] == old(outN[p.outPorts[pName]]) + len(old(ips)) && (forall j int :: 0 <= j && j < len(old(ips)) ==> outAt[old(p.outPorts[pName])][old(outN[p.outPorts[pName]]) + j] == old(ips)[j])
+//@   loop 0 invariant range: 0 <= $i && $i <= len(ips)
+//@   loop 0 invariant stable: p == old(p) && ips == old(ips) && pName == old(pName) && p.outPorts == old(p.outPorts) && p.outPorts[pName] == old(p.outPorts[pName]) && pName in p.outPorts && fcombOutsOK(p) && (forall j int :: 0 <= j && j < len(ips) ==> validIP(ips[j]))
+//@   loop 0 invariant so-far: outN[p.outPorts[pName]] == old(outN[p.outPorts[pName]]) + $i && (forall j int :: 0 <= j && j < $i ==> outAt[p.outPorts[pName]][old(outN[p.outPorts[pName]]) + j] == ips[j])
+
+//@ func (*FileCombinator).Run(p)
+//@   props C19
+//@   requires wf: wfInPorts(p.inPorts) && fcombOutsOK(p) && (forall k string :: k in p.inPorts ==> k in p.outPorts)
+//@   modifies *
+//@   atcall (*FileCombinator).combine every-in-port-was-read-until-closed[C19]: forall k string :: k in p.inPorts ==> k in inIPs && chanRecvN(p.inPorts[k].Chan) == chanTotal(p.inPorts[k].Chan)
+//@   atcall (*FileCombinator).combine all-keys-passed[C19]: forall k string :: k in inIPs ==> exists j int :: 0 <= j && j < len(keys) && keys[j] == k
+//@   loop 0 invariant stable: p == old(p) && p.inPorts == old(p.inPorts) && p.outPorts == old(p.outPorts) && wfInPorts(p.inPorts) && fcombOutsOK(p) && inIPs != nil && (forall k string :: k in p.inPorts ==> k in p.outPorts)
+//@   loop 0 invariant chan-same: forall k string :: k in p.inPorts ==> p.inPorts[k] == old(p.inPorts[k]) && p.inPorts[k].Chan == old(p.inPorts[k].Chan)
+//@   loop 0 invariant vis: forall k string :: $visited[k] ==> k in p.inPorts
+//@   loop 0 invariant collected: forall k string :: $visited[k] ==> k in inIPs
+//@   loop 0 invariant drained: forall k string :: $visited[k] ==> chanRecvN(p.inPorts[k].Chan) == chanTotal(p.inPorts[k].Chan)
+//@   loop 0 invariant only-ports: forall k string :: k in inIPs ==> $visited[k]
+//@   loop 0 invariant items-valid: forall k string, j int :: k in inIPs && 0 <= j && j < len(inIPs[k]) ==> validIP(inIPs[k][j])
+//@   loop 1 invariant stable: p == old(p) && p.inPorts == old(p.inPorts) && p.outPorts == old(p.outPorts) && wfInPorts(p.inPorts) && fcombOutsOK(p) && inIPs != nil && pName in p.inPorts && inPort == p.inPorts[pName] && pName in inIPs && (forall k string :: k in p.inPorts ==> k in p.outPorts)
+//@   loop 1 invariant chan-same: forall k string :: k in p.inPorts ==> p.inPorts[k] == old(p.inPorts[k]) && p.inPorts[k].Chan == old(p.inPorts[k].Chan)
+//@   loop 1 invariant vis: forall k string :: $visited0[k] ==> k in p.inPorts
+//@   loop 1 invariant collected: forall k string :: $visited0[k] ==> k in inIPs
+//@   loop 1 invariant drained: forall k string :: $visited0[k] && k != pName ==> chanRecvN(p.inPorts[k].Chan) == chanTotal(p.inPorts[k].Chan)
+//@   loop 1 invariant only-ports: forall k string :: k in inIPs ==> $visited0[k]
+//@   loop 1 invariant items-valid: forall k string, j int :: k in inIPs && 0 <= j && j < len(inIPs[k]) ==> validIP(inIPs[k][j])
+//@   loop 1 step collects-the-received-file-at-the-end-of-its-ports-list[C19]: len(inIPs[pName]) >= 1 && inIPs[pName][len(inIPs[pName]) - 1] == newIP
+//@   loop 2 invariant keys-so-far: forall k string :: $visited[k] ==> exists j int :: 0 <= j && j < len(keys) && keys[j] == k
+//@   loop 2 invariant stable: p == old(p) && p.inPorts == old(p.inPorts) && p.outPorts == old(p.outPorts) && fcombOutsOK(p) && inIPs != nil && (forall k string :: k in inIPs ==> k in p.outPorts)
+//@   loop 2 invariant drained: forall k string :: k in p.inPorts ==> k in inIPs && chanRecvN(p.inPorts[k].Chan) == chanTotal(p.inPorts[k].Chan)
+//@   loop 2 invariant items-valid: forall k string, j int :: k in inIPs && 0 <= j && j < len(inIPs[k]) ==> validIP(inIPs[k][j])
+//@   loop 3 invariant outs: p == old(p) && p.outPorts == old(p.outPorts) && fcombOutsOK(p) && (forall k string :: k in outIPs ==> k in p.outPorts) && (forall k string, j int :: k in outIPs && 0 <= j && j < len(outIPs[k]) ==> validIP(outIPs[k][j]))
